@@ -41,7 +41,16 @@ def generate(rng, tier):
                  "A %s %s %s %s d" % (sp.s(), cfgb, E.script_str(scr), hexd),
                  "A %s %s %s %s s" % (sp.s(), cfgb, E.script_str(scr), hexd)]
         cases.append(Case(lines, kind + ":" + mode if False else kind, {"script": scr, "buffered": bool(buf), "mode": mode}))
+    # inputs well above 2 x 64 KiB delivered in 64 KiB reads (not starved: delivery runs ahead of parsing)
     sp = E.base_spec()
+    for k in range(6 if thorough else 2):
+        blocks = [E.Node(("b", E.CHILD, bytes([rng.getrandbits(8)]) * rng.choice([700, 1000, 1500]))) for _ in range(rng.choice([150, 300]))]
+        nodes = [E.Node(("m", E.ROOT), rng.choice(["u", None]), [E.Node(("m", E.PARENT), rng.choice([None, "u"]), blocks), E.Node(("u", E.INT, 7))])]
+        data = E.encode(nodes)
+        for scr in ([], [65536, 65536, 65536], [70000]):
+            lines = ["R %s %s - %s N" % (sp.s(), E.cfg_str(), data.hex()), "A %s %s %s %s d" % (sp.s(), E.cfg_str(), E.script_str(scr), data.hex()),
+                     "A %s %s %s %s s" % (sp.s(), E.cfg_str(), E.script_str(scr), data.hex())]
+            cases.append(Case(lines, "huge", {"script": scr, "buffered": False, "mode": "huge"}))
     smalls = [bytes.fromhex("8183410280"), bytes.fromhex("81ff41018105")]
     if thorough:
         tries = 0
